@@ -134,7 +134,8 @@ def random_results(rng):
     if n >= 2 and rng.random() < 0.7:
         types[-1] = ERR[1] if rng.random() < 0.85 else rng.choice(err_like)
         types[-2] = RESP[1] if rng.random() < 0.85 else rng.choice(resp_like)
-    names = rng.sample(["a", "b", "r", "res", "resp", "e", "err", "u"], n) if rng.random() < 0.3 else None
+    names = rng.sample(["a", "b", "r", "res", "resp", "e", "err", "u", "resp_", "url_", "req_", "c", "http", "json",
+                        "path_", "io"], n) if rng.random() < 0.3 else None
     if not names:
         return [([], t) for t in types]
     # named results: neighbours of one type are merged into one multi-name field half of the time
@@ -150,6 +151,11 @@ def random_results(rng):
         fields[k][0].append("x%d" % k)
     return fields
 
+
+# names for the two results of a method without result type
+RESULT_NAME_PAIRS = [("resp", "err"), ("r", "e"), ("resp_", "err"), ("url_", "err"), ("req_", "err_"), ("path_", "query_"),
+                     ("c", "err"), ("err", "e"), ("http", "url"), ("json", "io"), ("fmt", "strings"), ("body_", "r_"),
+                     ("bodyJson_", "bytes"), ("response", "time")]
 
 VERBS = ["Get", "Post", "Put", "Patch", "Delete"]
 BODY_VERBS = ("Post", "Put", "Patch")
@@ -279,9 +285,12 @@ def gen_iface_pkg(rng, name, n_ifaces, n_methods, force=None, ctx_first=0):
             verb = VERBS[k % 5] if k < 10 else rng.choice(VERBS)
             ctx = forced or not (verb in ("Get", "Delete") and rng.random() < 0.15)
             if rt is None:
-                # two-value signatures may carry names (cook.go only refuses names when n == 3)
-                if rng.random() < 0.3:
-                    results = [(["resp"], RESP[1]), (["err"], ERR[1])]
+                # two-value signatures may carry names (cook.go only refuses names when n == 3); the
+                # names are drawn from a pool that contains the generated method's own identifiers
+                # and the packages its file imports (fixed finding K_rest_result_names_collide)
+                if rng.random() < 0.45:
+                    n1, n2 = rng.choice(RESULT_NAME_PAIRS)
+                    results = [([n1], RESP[1]), ([n2], ERR[1])]
                 else:
                     results = [RESP, ERR]
             else:
